@@ -11,7 +11,7 @@ From Texel Require Import Chess.Types Chess.Position Chess.PositionSpec Chess.Po
   Chess.MoveGenProofs
   Chess.BitBoard Chess.MoveGen Chess.MoveGenWF Chess.Fen Chess.Spec
   RevGen.RevGen RevGen.RevFacts RevGen.RevAbs RevGen.RevRestore RevGen.RevValid RevGen.RevCand RevGen.RevRaw
-  RevGen.RevLegal RevGen.RevTheorems RevGen.RevSpec RevGen.RevPremise RevGen.RevPawn RevGen.RevCastle RevGen.RevComplete RevGen.RevCons RevGen.RevNoDup RevGen.RevSlide.
+  RevGen.RevLegal RevGen.RevTheorems RevGen.RevSpec RevGen.RevPremise RevGen.RevPawn RevGen.RevCastle RevGen.RevComplete RevGen.RevCons RevGen.RevNoDup RevGen.RevSlide RevGen.RevConsPawn.
 Import ListNotations.
 Local Open Scope N_scope.
 
@@ -230,6 +230,19 @@ Theorem C15_consistent_nonpawn : forall zk q, Consistent zk q -> WF q -> forall 
   Consistent zk prev /\ legal_spec (abs prev) (um_move um) /\ abs (successor zk prev (um_move um)) = abs q.
 Proof. exact consistent_nonpawn. Qed.
 Print Assumptions C15_consistent_nonpawn.
+
+(** C15_consistent_statement for every pawn un-move (single and double step, capture, en-passant capture) and
+    every un-promotion, over positions Q of the domain [WFrev] (invariant, well-formed, e.p. square stable under
+    the fix-up, the origin square of the double step that set the e.p. square empty -- without the last condition
+    the statement is false: the FEN reader accepts a piece there and the un-move list still has the double step) *)
+Theorem C15_consistent_pawn : forall zk q, WFrev zk q -> forall incl um,
+  In um (genMoves zk q incl) ->
+  (mpromote (um_move um) = EMPTY /\ isPawnPiece (nthP (squares q) (mto (um_move um))) = true) \/
+  mpromote (um_move um) <> EMPTY ->
+  let prev := unMakeMove zk q (um_move um) (um_ui um) in
+  Consistent zk prev /\ legal_spec (abs prev) (um_move um) /\ abs (successor zk prev (um_move um)) = abs q.
+Proof. exact consistent_pawnlike. Qed.
+Print Assumptions C15_consistent_pawn.
 
 (** the shape of the raw reverse moves of genMovesNoUndoInfo that are not pawn un-moves or un-promotions *)
 Theorem C15_raw_piece_shape : forall q, BoardOK q ->
